@@ -73,3 +73,29 @@ func printGraph(g *Graph) {
 	}
 	walk(g.Start, 0)
 }
+
+func init() {
+	debugHooks["words"] = func(p *Prog, what string) {
+		fn := p.Func(strings.TrimPrefix(what, "words:"))
+		if fn == nil {
+			fmt.Println("no such function")
+			return
+		}
+		m := NewInterpModel(p, what)
+		var params []AV
+		for _, prm := range fn.Params {
+			params = append(params, Sym(prm.Name()))
+		}
+		m.Explore(fn, params, nil)
+		ws, ok := m.G.Words(500)
+		fmt.Println("ok:", ok, "words:", len(ws), "undecided:", m.Undecided)
+		seen := map[string]bool{}
+		for _, w := range ws {
+			s := wordString(w)
+			if !seen[s] {
+				seen[s] = true
+				fmt.Println("  ", s)
+			}
+		}
+	}
+}
